@@ -62,7 +62,8 @@ def tdvp_case(draw):
     c = {'dims': dims, 'ranks': ranks, 'rank_class': rk if (ranks != mr or rk == 'product') else 'maximal', 'cplx': draw(st.booleans()), 'seed': draw(gen.SEED),
          'h': draw(st.sampled_from([0.05, 0.1, 0.25, 0.5])), 'steps': draw(st.integers(1, 3)),
          'method': draw(st.sampled_from(['tdvp1site', 'tdvp1site', 'tdvp2site', 'tdvp'])),
-         'threshold': draw(st.sampled_from([None, None, 0, 1e-12, 1e-8])), 'max_rank': draw(st.sampled_from([None, None, 50, 2, 3]))}
+         'threshold': draw(st.sampled_from([None, None, 0, 1e-12, 1e-8])), 'max_rank': draw(st.sampled_from([None, None, 50, 2, 3])),
+         'normalize': draw(st.sampled_from([0, 0, 2]))}
     return c
 
 
@@ -91,6 +92,8 @@ def body_tdvp(c):
             kw['threshold'] = c['threshold']
         if c['max_rank'] is not None:
             kw['max_rank'] = c['max_rank']
+    if c.get('normalize', 0):
+        kw['normalize'] = c['normalize']        # unitary dynamics of a unit vector: the 2-norm normalisation must be a no-op
     sol = getattr(ode, m)(op, x0, c['h'], c['steps'], **kw)
     require(isinstance(sol, list) and len(sol) == c['steps'] + 1, 'length', '%d states for %d steps' % (len(sol), c['steps']))
     require(sol[0] is x0, 'initial_by_identity', 'first element of the trajectory is not the initial state object')
@@ -105,6 +108,8 @@ def body_tdvp(c):
         lab.add('order>=3')
     if c['steps'] >= 2:
         lab.add('multi_step')
+    if c.get('normalize', 0):
+        lab.add('normalize2')
     cap = kw.get('max_rank', 50)
     th = kw.get('threshold', 1e-12)
     truncating = m != 'tdvp1site' and ((cap < max(mr) and not product) or th > 1e-12)
@@ -125,6 +130,8 @@ def body_tdvp(c):
             require(max(s.ranks) <= lim, 'rank_cap', 'ranks %s exceed max_rank %s' % (s.ranks, cap))
         if maximal and not truncating:
             close(got, v, 1e-8, 1.0, 'exact_at_full_rank', '%s state %d vs expm(-i t H) x0' % (m, k))
+        if c.get('normalize', 0) == 2:
+            require(abs(np.linalg.norm(got) - 1) <= 1e-9, 'unit_norm', 'normalize=2: state %d has norm %.12f' % (k, np.linalg.norm(got)))
         if m == 'tdvp1site':
             require(abs(np.linalg.norm(got) - 1) <= 1e-9, 'norm_conserved', 'step %d: norm %.12f' % (k, np.linalg.norm(got)))
             e = np.real(np.vdot(got, H @ got))
